@@ -43,7 +43,7 @@ def run_check(root, args):
     out = []
     for path, ms in captured[0].file_list:
         rel = os.path.relpath(os.path.join(root, str(path)), root)
-        out.append((rel, [(m.unit_name, m.start.line, m.start.column, m.value) for m in ms]))
+        out.append((rel, [(m.unit_name, m.start.line, m.start.column, m.value, m.end.line, m.end.column) for m in ms]))
     return out, code
 
 
@@ -57,7 +57,7 @@ def run(tier, seed, replay=None):
     cases = []
     tmp = tempfile.mkdtemp(prefix="verif_c12_")
     try:
-        for ci in range(60 if tier == "quick" else 2500):
+        for ci in range(90 if tier == "quick" else 2500):
             nodes = c11.gen_tree(rng)
             root = os.path.realpath(os.path.join(tmp, f"t{ci}"))
             os.makedirs(root)
@@ -79,7 +79,7 @@ def run(tier, seed, replay=None):
                     data = open(p, "rb").read()
                     lead = b"# caf\xe9 \xff\n" if comps[-1].endswith(".py") else b"// caf\xe9 \xff\n"
                     open(p, "wb").write(data + lead)
-            cfg = rng.sample(c11.PATTERN_POOL, rng.choice([0, 0, 1, 2]))
+            cfg = rng.sample(c11.PATTERN_POOL, rng.choice([0, 0, 1, 2])) + c11.derived_patterns(rng, nodes)
             gi = rng.sample(c11.PATTERN_POOL, rng.choice([0, 0, 1]))
             if gi:
                 with open(os.path.join(root, ".gitignore"), "w") as f:
@@ -97,7 +97,7 @@ def run(tier, seed, replay=None):
                 continue
             finally:
                 os.chdir(old)
-            scanned = {p: [(m.unit_name, m.start.line, m.start.column, m.value) for m in e.measurements()] for p, e in cb.files.items()}
+            scanned = {p: [(m.unit_name, m.start.line, m.start.column, m.value, m.end.line, m.end.column) for m in e.measurements()] for p, e in cb.files.items()}
             spec = Scanner.generate_exclude_spec(Path(root))
             case = {"tree": nodes, "excludes": cfg, "gitignore": gi}
             model_args = []
